@@ -333,6 +333,9 @@ def check(ctx, case):
         ctx.klass('tamper.skipped_partial')
         return
     if medium == 'object':
+        if case.get('verify_first'):
+            first, _ = _lib_verify(t)
+            ctx.klass('tamper.after_successful_verify' if first else 'tamper.after_failed_verify')
         try:
             applied = _tamper_object(t, plan, tam, amounts)
         except Exception as e:
@@ -462,7 +465,9 @@ def _strategy(ctx):
             ops = OBJ_TAMPERS if medium == 'object' else BYTE_TAMPERS
             tamper = {'op': draw(st.sampled_from(ops)), 'i': draw(st.integers(0, 7)), 'j': draw(st.integers(0, 7)),
                       'b': draw(st.integers(0, 255))}
-        return {'kind': 'verify', 'plan': plan, 'mode': mode, 'tamper': tamper, 'medium': medium}
+        return {'kind': 'verify', 'plan': plan, 'mode': mode, 'tamper': tamper, 'medium': medium,
+                # the object is (successfully) verified once before it is tampered with: verdicts may not be remembered
+                'verify_first': draw(st.booleans())}
     return cases()
 
 
